@@ -1,12 +1,12 @@
 #!/bin/sh
 # Offline setup: warm the Go build cache by building every engine once.
-set -e
+# A failure here is only a warning: every check rebuilds what it needs.
 export GOFLAGS=-mod=mod GOPROXY=off GOSUMDB=off GOTOOLCHAIN=local
-cd "$(dirname "$0")/sim"
+cd "$(dirname "$0")/sim" || exit 1
 T=$(mktemp -d /var/tmp/verif-setup-XXXXXX)
 trap 'rm -rf "$T"' EXIT
 for e in engines/*/; do
   n=$(basename "$e")
-  go1.26.8 test -c -tags verif -o "$T/$n.test" "./engines/$n" || exit 1
+  go1.26.8 test -c -tags verif -o "$T/$n.test" "./engines/$n" || echo "warning: engine $n does not build yet"
 done
 echo "setup ok"
